@@ -117,7 +117,35 @@ def p_C19(res, facts, tier):
     quant.check_convert(res, facts, 'C19')
 
 
+def p_C13(res, facts, tier):
+    from .rules import glide
+    glide.check_glide(res, facts, 'C13')
+
+
+def p_C14(res, facts, tier):
+    from .rules import glide
+    glide.check_glide(res, facts, 'C14')
+
+
+def p_C15(res, facts, tier):
+    from .rules import ribbon
+    ribbon.check_poll(res, facts, 'C15')
+    ribbon.check_edges_and_value(res, facts, 'C15')
+    ribbon.check_sizing(res, facts, 'C15')
+
+
+def p_C16(res, facts, tier):
+    from .rules import ribbon
+    ribbon.check_poll(res, facts, 'C16')
+    ribbon.check_edges_and_value(res, facts, 'C16')
+    ribbon.check_sizing(res, facts, 'C16')
+
+
 PROPS = {
+    'C15': dict(fn=p_C15, level='proof', explanation='Effect summary of poll() over (in range?) x (settling count reached?) x (buffer full?) x (pressing, just_pressed, just_released): every out-of-range path releases, zeroes both progress counters and latches the release edge; in-range paths advance the counters by one (saturating), store the sample iff settled, and raise the press exactly when the fill counter reaches the capacity; getters return and clear. The run-length statement follows by induction on the counters.'),
+    'C16': dict(fn=p_C16, level='other', explanation='current_val is written only in the buffer-full block as E(a), a = sum(take(oldest_ordered(buffer after this write), N-discard))/(N-discard) (container terms), retained on every other path; value() = current_val/boundary; E is monotone with 0 <= E(a) <= a on the parameter box; counters restart after every out-of-range sample so no earlier press contributes; constructor discard count agrees with the capacity helper (N = main+discard+1). heapless ring order is trusted; the exact f32 mean is not decided.'),
+    'C13': dict(fn=p_C13, level='proof', explanation='For the constructor and for set_time over a partition of t in [0,inf) that carries the cutoff/sample-rate relation exactly (t=0; t=tau/fs; t=1/(u*fs), u=f0/fs<=1/4; t>=10 s), the coefficient terms produced by the dependency design (its own MIR) are, after clearing the common denominator, a convex combination: b0,b1,-a1 >= 0, sum 1, pole -a1 < 1, a2=b2=0; process() is the five-term recurrence on (input, previous input, previous output) and set_time touches nothing but the coefficients. Hence no overshoot/ringing for any history and contraction for constant input, over the reals.'),
+    'C14': dict(fn=p_C14, level='other', explanation='set_time is ignored exactly on paths implying |t - cached_t| <= 0.05 and then writes nothing; otherwise cached_t := t together with the coefficients, whose design argument is pi*clamp(1/t, 0.1 Hz, max_fc)/fs per partition of t. The response percentages follow from the pole formula by the written lemma and are NOT decided.'),
     'C07': dict(fn=p_C07, level='proof', explanation='Mask invariant allowed in [1,4095] is inductive over new/allow/forbid (Kleene iteration over the note slice, slice length partitioned 0 / >=1), forbid rescues the LAST note; the hysteresis early return is taken only on paths that imply the cached pitch class (note mod 12) is enabled now; every value find_nearest_note can return is the note of an enabled candidate (loop invariant: the recorded best is always pc*H+k*O with pc enabled, checked inductive over both back edges).'),
     'C08': dict(fn=p_C08, level='other', explanation='Necessary structure of the nearest-note scan only: octaves searched are exactly k-1 (if it exists), k, k+1 (if it exists) in ascending order; every returned note is either within one half step of the input or the recorded best candidate; search input is the clamped input; microvolt constants consistent. Optimality of the scan arithmetic (nearest note over all 4095 scales, tie tolerance) is NOT decided.'),
     'C09': dict(fn=p_C09, level='other', explanation='convert(): early return exactly on paths implying (pitch class enabled) and stairstep-H < v < stairstep+W+H, rewriting only the fraction; every other path re-searches with the clamped input and its result carries no symbol of the previous conversion (history-free); the freshly constructed quantizer cannot take the early return. Monotonicity of the note sequence depends on C08 optimality and is not decided.'),
